@@ -6,7 +6,9 @@ import numpy as np
 
 import cola
 import cola.linalg as L
+from cola import ops
 from mc import invfam
+from mc import payload as P
 from mc.refmodel import coarse_signature, is_complex_term, ref, size
 from mc.terms import build, to_source
 
@@ -117,9 +119,43 @@ def run_big(case, seed):
     return {"transitions": 3, "outcome": f"big:{kind}:{algname}:{round(float(lad_ref))}", "violations": vio}
 
 
+def run_spec(case, seed):
+    """operators with a prescribed REAL spectrum of both signs (complex and real, Hermitian and non-normal with well-conditioned eigenvectors):
+    the Krylov paths take log through an eigendecomposition per probe vector, and every negative eigenvalue must land on the same branch"""
+    from mc import krylov as K
+    _, kind, n, algname = case
+    lam = (1.5 + 1.25 * np.arange(n)) * np.where(np.arange(n) % 2 == 0, -1.0, 1.0)  # -1.5, 2.75, -4, ...
+    lam = P.rng(seed, "c07spec", n).permutation(lam) * 7.0
+    if kind == "herm-c":
+        M, _ = K.hermitian(seed, n, lam, True, "c07h")
+    elif kind == "sym-r":
+        M, _ = K.hermitian(seed, n, lam, False, "c07s")
+    elif kind == "gen-c":
+        M, _ = K.diagonalizable(seed, n, lam, True, 3.0, "c07g")
+    else:
+        M, _ = K.diagonalizable(seed, n, lam, False, 3.0, "c07gr")
+    A = ops.Dense(M)
+    sgn_ref, lad_ref = (-1.0) ** int(np.sum(lam < 0)), float(np.sum(np.log(np.abs(lam))))
+    vio = []
+    with warnings.catch_warnings():
+        warnings.simplefilter("ignore")
+        try:
+            s, ld = call(A, algname, n, "slogdet")
+            s_c, ld_c = complex(np.asarray(s).reshape(-1)[0]), complex(np.asarray(ld).reshape(-1)[0])
+            tol = 1e-6 if algname in ("Lanczos", "Arnoldi") else 1e-9
+            if not (np.isfinite(s_c) and np.isfinite(ld_c)) or abs(s_c - sgn_ref) > 10 * tol or abs(ld_c - lad_ref) > tol * max(1.0, abs(lad_ref)):
+                vio.append({"key": f"C07|real-spectrum-of-both-signs|value|{algname}|{kind}", "what": f"slogdet wrong for {kind} with real eigenvalues of both signs (n={n})",
+                            "detail": {"sign": s_c, "logabs": ld_c, "want_sign": sgn_ref, "want_logabs": lad_ref, "eigenvalues": lam.tolist()}})
+        except Exception as e:
+            vio.append({"key": f"C07|real-spectrum-of-both-signs|exc:{type(e).__name__}|{algname}|{kind}", "what": f"slogdet raised ({kind}, n={n})", "detail": {"msg": str(e)[:300]}})
+    return {"transitions": 2, "outcome": f"spec:{kind}:{n}:{algname}", "violations": vio}
+
+
 def run_case(case, seed):
     if case[0] == "BIG":
         return run_big(case, seed)
+    if case[0] == "SPEC":
+        return run_spec(case, seed)
     term, algname = case
     R = ref(term, seed)
     M = R.mat
@@ -215,6 +251,10 @@ def cases(tier, seed):
         for n, scale in ((400, 1.0 / 256), (400, 256.0)) + (((240, 1.0 / 4096), ) if tier == "thorough" else ()):
             for a in ("omitted", "Auto", "LU") + (("Cholesky", ) if kind == "PSD" else ()):
                 out.append(["BIG", kind, n, scale, a])
+    for kind in ("herm-c", "sym-r", "gen-c", "gen-r"):
+        for n in (2, 3, 4, 5):
+            for a in ("omitted", "LU", "Arnoldi"):
+                out.append(["SPEC", kind, n, a])
     info["states"] = len(out)
     _DESC.update(info)
     return out
@@ -226,7 +266,7 @@ def case_signature(case):
 
 def describe(tier, seed):
     return {
-        "bound": "9 operator kinds of size 240-400 whose determinant lies outside the double range (|log|det|| > 745); the invertible term family of C06 (40 leaves incl. |det|<1 and >1, both signs / four phases, permutations of both parities, "
+        "bound": "dense operators with a prescribed real spectrum of both signs (complex Hermitian, real symmetric, complex / real non-normal; n = 2..5); 9 operator kinds of size 240-400 whose determinant lies outside the double range (|log|det|| > 745); the invertible term family of C06 (40 leaves incl. |det|<1 and >1, both signs / four phases, permutations of both parities, "
                  "scalar operators of sizes 1..4; all depth-1 nestings" + ("; capped depth-2" if tier == "thorough" else "")
                  + ") x (log_alg, trace_alg) in {omitted, (Auto, Auto), (LU, Auto), (Cholesky, Auto)*, (Lanczos, Exact)*, (Arnoldi, Exact)} (* PSD only)",
         "alphabet": _DESC,
